@@ -5,11 +5,15 @@
 (* pairs.  DecTsRequest is used for both directions.                         *)
 EXTENDS Bytes
 
+\* TRUE: DER (minimal definite lengths); FALSE: any definite-length BER (used only to recognise an honest
+\* proof inside a non-DER envelope, see Trace_Rdp!TSDer2)
+CONSTANT Strict
+
 LOCAL W == INSTANCE WireClient
 
 \* strict DER TLV inside b[i..lim] with an expected tag
 Der(b, i, lim, t) ==
-  LET h == W!TlvDer(b, i) IN
+  LET h == W!TlvG(b, i, Strict) IN
   IF ~h.ok THEN h
   ELSE IF h.tag # t THEN Bad("der: unexpected tag")
   ELSE IF i + h.hl + h.len - 1 > lim THEN Bad("der: value exceeds container")
